@@ -239,10 +239,11 @@ def collect(tier, d):
     return runs, stats
 
 
-def validate(v, runs, d, report=True, tag="repo"):
-    """TLC decides which runs are behaviours of PoolRun.tla with the most general environment"""
+def validate(v, runs, d, report=True, tag="repo", must_reject=()):
+    """TLC decides which runs are behaviours of PoolRun.tla with the most general environment.  `must_reject`: corrupted
+    runs validated in the same TLC run (binding self-test); returns (#accepted, states, rejected, #corrupted accepted)"""
     rows = []
-    for k, r in enumerate(runs):
+    for k, r in enumerate(list(runs) + list(must_reject)):
         rows += tlc_rows(k + 1, r, r["cancel"])
     path = os.path.join(d, "TracePoolRunHooks_%s_%d.ndjson" % (tag, len(rows)))
     vlib.write_ndjson(path, rows)
@@ -255,6 +256,9 @@ def validate(v, runs, d, report=True, tag="repo"):
                                   % (tr.kind, tr.what, tr.out[-3000:]))
     acc = {int(m.group(1)) for m in re.finditer(r'<<"VERIF-ACC", (\d+)>>', tr.out)}
     rejected = [k for k in range(len(runs)) if (k + 1) not in acc]
+    bad_acc = [must_reject[k]["test"] for k in range(len(must_reject)) if (len(runs) + k + 1) in acc]
+    if bad_acc:
+        raise vlib.MachineryError("binding self-test: corrupted repo-test traces accepted by TracePoolRunHooks: %s" % bad_acc)
     if rejected and report:
         diagnose(v, [runs[k] for k in rejected], d)
     return len(runs) - len(rejected), tr.distinct, rejected
@@ -358,12 +362,8 @@ def bind(tier, v):
     if not runs:
         raise vlib.MachineryError("no engine run recorded from the repository's tests")
     t1 = time.time()
-    accepted, states, rejected = validate(v, runs, d)
     bad = corrupt(runs)
-    acc_bad, _, rej_bad = validate(v, bad, d, report=False, tag="corrupt")
-    if acc_bad:
-        names = [bad[k]["test"] for k in range(len(bad)) if k not in rej_bad]
-        raise vlib.MachineryError("binding self-test: corrupted repo-test traces accepted by TracePoolRunHooks: %s" % names)
+    accepted, states, rejected = validate(v, runs, d, must_reject=bad)
     vlib.log("repo tests: %d runs of %d tests, %d accepted, %d validation states, tests %.0fs + TLC %.0fs"
              % (len(runs), stats["tests_with_runs"], accepted, states, t1 - t0, time.time() - t1))
     sample = next((r for r in runs if r["engine"] and len(r["pools"]) == 2), runs[0])
